@@ -378,6 +378,14 @@ func checkTreeBase(prog *ast.Program, srcLen int, base int) (string, string, str
 	type span struct{ a, b file.Idx }
 	spans := map[ast.Node]span{}
 	for _, ni := range nodes {
+		switch ni.n.(type) {
+		case *ast.BadExpression, *ast.BadStatement:
+			// the placeholder for text the parser could not make sense of: a tree
+			// returned without an error must not contain one
+			return "bad_node_in_accepted_tree", fmt.Sprintf("bad-node %T", ni.n), fmt.Sprintf("the tree of an accepted source contains a %T (no error was reported)", ni.n)
+		}
+	}
+	for _, ni := range nodes {
 		i0, i1, p := safeIdx(ni.n)
 		if p != "" {
 			return "span_panic", fmt.Sprintf("span-panic %T", ni.n), fmt.Sprintf("Idx0/Idx1 of %T panicked: %s", ni.n, p)
@@ -813,6 +821,8 @@ var syntaxZoo = []string{
 	"if(a){}else{}\nfor(;;)break;\nwhile(a)continue;\nl:{break l}",
 	"a=b\n++c;d=e\n--f;g=h\n/i/j;",
 	"var a\nvar b=1,c\nreturn_=1\n",
+	"var b٣={},é={},e\u0301x=1,a‿b=2,ⅷ=3;b٣.x٣=1;é.e\u0301=b٣.x٣;é.a‿b=b٣.ⅷ;",
+	"o.\\u0061b=1;o.a\\u0062c=2;o.if=o.new.typeof;o.$_=o._$9;",
 }
 
 // constructs that ES5 rejects at parse time (syntax errors and the early errors
@@ -826,7 +836,7 @@ var invalidAnywhere = []string{
 	"x=\"abc\n\";", "x=1e;", "x=0x;",
 	"for(x=1\nx<3;x++);", "for(var i=0\ni<1;i++);", "switch(1){default:case 1:default:}", "switch(1){case 1:default:;default:}",
 	"x=({+:1});", "x={0x:1};", "x={*:2,a:1};", "x={a:1,-:2};",
-	"x=/(?</;", "x=/a(?<!/;", "x=/(?<=/;", "x=/(?</g;", "x=/\\/;",
+	"x=/(?</;", "x=/a(?<!/;", "x=/(?<=/;", "x=/(?</g;", "x=/\\/;", "x=/[\\\n]/;", "x=/a\\\n/;", "x=/[a\\\r\n]/;", "x=/[\\\u2028]/;",
 	"x=1e3in{};", "x=.5E-2instanceof Object;", "x=0e0in[];", "x=3in[];", "x=01a;", "x=0x3in[];", "x=1.5a;", "x=1.e;",
 	"a:if(1){while(1){continue a;}}", "a:{b:for(;;){continue a;}}", "function g(){a:switch(1){case 1:for(;;){continue a}}}",
 	"a:{continue a;}", "a:switch(1){case 1:continue a;}", "for(;;){(function(){continue;})()}", "while(1){(function(){break;})()}",
@@ -838,6 +848,7 @@ var invalidSuffix = []string{
 	"x='unterminated", "/* unterminated", "if(", "for(;;", "with(", "[1,2", "for(var i=0;i<1;i++", "function f(){", "x={", "x=(1", "x=[", "switch(1){case",
 	"try{}catch", "try{}catch(", "try{}catch(e", "try{}catch(e)", "try{}finally", "if(1){}else", "do{}while(", "x=function(", "new f(", "x=a?", "var", "var x=", "x.",
 	"x[", "x=!", "delete", "void", "typeof", "x=y+", "x=y,", "throw", "'\\", "x={'unterminated:1};", "do;while", "(",
+	"x=/[", "x=/a[", "x=/[ab]c[", "x=/a\\", "x=/[\\", "x=/[a\\", "x=/", "x=/a",
 }
 
 // Preflight: the corpus of invalid constructs and the syntax zoo are finite, so
